@@ -51,15 +51,15 @@ Definition xspec_step (s : list N) (e : xevent) : list N * bool :=
 Fixpoint xspec_run (s : list N) (es : list xevent) : bool :=
   match es with [] => true | e :: r => let '(s', ok) := xspec_step s e in ok && xspec_run s' r end.
 
-(* S25: WaitForSync returned on a member whose FSM had by then been given fewer entries than were committed when its
-   join returned (the observed trace, not the verdict) *)
+(* S25: WaitForSync returned on a member whose raft AppliedIndex equalled its LastIndex (what WaitForUpdates checks) while
+   its FSM had been given fewer entries than were committed when its join returned (the observed trace, not the verdict) *)
 Fixpoint early_ready (ap : list (N * N)) (es : list oevent) : bool :=
   match es with
   | [] => false
   | OApply n j :: r => early_ready (aput n (j + 1) ap) r
   | ORestore n _ _ lbl :: r => early_ready (aput n lbl ap) r
   | ORestart n :: r => early_ready (aput n 0 ap) r
-  | OReady n m0 _ :: r => (match aget n ap with Some a => a <? m0 | None => 0 <? m0 end) || early_ready ap r
+  | OReady n m0 q _ :: r => (q && match aget n ap with Some a => a <? m0 | None => 0 <? m0 end) || early_ready ap r
   | _ :: r => early_ready ap r
   end.
 Definition tag17 (cmds : list logop) (es : list oevent) : N := if early_ready [] es then 4 else tag_of cmds es.
